@@ -41,8 +41,11 @@ pub fn gen_case(seed: u64, idx: usize, kinds: &[SectionKind], mode: usize) -> Ca
     // one time in three all sections are about the same path (`git log -p -- path`, a file added in
     // one commit and changed in the next, ...)
     let shared: Option<String> = if rng.chance(1, 3) { Some(format!("{}shared_{}.{}", rng.pick(&["", "src/", "a/b/"]), rng.below(100), rng.pick(&["rs", "png", "txt", "sh"]))) } else { None };
+    // one case in five is a `git log -p` stream: every file diff is preceded by a commit header
+    let log_stream = rng.chance(1, 5);
+    let with_stat = log_stream && rng.chance(1, 3);
     for (i, k) in kinds.iter().enumerate() {
-        let s = gen::generate_section_named(&mut rng, &gp, *k, i, tok, shared.clone());
+        let s = if log_stream { gen::generate_commit_unit(&mut rng, &gp, *k, i, tok, shared.clone(), with_stat) } else { gen::generate_section_named(&mut rng, &gp, *k, i, tok, shared.clone()) };
         tok += s.iter().filter(|l| l.token.is_some()).count();
         sections.push(s);
     }
